@@ -468,6 +468,10 @@ class ExcelCompiler:
             # reset the node + its dependencies
             if not self.cycles:
                 self._reset(cell_or_range)
+            elif getattr(cell_or_range, 'formula', None) and not set_as_range:
+                # iterative calcs evaluate all formulas on every pass, so
+                # a value can only replace a formula, not override it
+                cell_or_range.formula = None
 
             # set the value
             cell_or_range.value = value
